@@ -51,7 +51,8 @@ def check(prog, ctx):
              'omit k=0 only because PDF_Chi_Square(x,0)=0', 2)
     ctx.rule('C07.f', 'KDE: the returned interpolant is multiplied by the reciprocal of its own integral over [xMin,xMax]', 1)
     ctx.rule('C07.g', 'dependency: the incomplete-gamma evaluator reached from CDF_Poisson/CDF_Chi_Square passes C06.a (Lentz term index) and its '
-             'quadrature window never evaluates the integrand at negative abscissae', 2)
+             'quadrature window never evaluates the integrand at negative abscissae and is clamped to [0,1] (C06.i, C06.l); PMF_Binomial inherits the form of '
+             'Binomial_Coefficient (C06.e)', 2)
     ctx.sub('continuous', continuous, prog, ctx)
     ctx.sub('discrete', discrete, prog, ctx)
     ctx.sub('likelihoods', likelihoods, prog, ctx)
@@ -418,9 +419,9 @@ def dependency(prog, ctx):
         ctx.undecided('C07.g', 'dependency:C06', gq, 'C06 rules could not be evaluated: %s' % e)
         return
     for o in sub.obs:
-        if o.rule in ('C06.a', 'C06.i') :
+        if o.rule in ('C06.a', 'C06.i', 'C06.l') or (o.rule == 'C06.e' and 'Binomial' in o.instance):
             if o.status == 'violated':
-                ctx.obs.append(type(o)('C07.g', 'dependency:' + o.instance, 'violated', o.where, 'CDF_Poisson/CDF_Chi_Square inherit: ' + o.detail, o.witness))
+                ctx.obs.append(type(o)('C07.g', 'dependency:' + o.instance, 'violated', o.where, 'CDF_Poisson/CDF_Chi_Square/PMF_Binomial inherit: ' + o.detail, o.witness))
             elif o.status == 'undecided':
                 ctx.obs.append(type(o)('C07.g', 'dependency:' + o.instance, 'undecided', o.where, o.detail))
             else:
